@@ -218,11 +218,92 @@ let write_obs (l : block list) : string =
 
 let profile_of s = if s = "D" then Debug else Release
 
+(* ---- accessors (C12) *)
+let ranges_s (l : (n * n) list) : string =
+  if l = [] then "-" else String.concat "," (List.map (fun (a, b) -> hex_of_n a ^ "-" ^ hex_of_n b) l)
+
+exception Acc_panic
+
+let cue_acc (c : cuesheet) (ch : n) (bps : n) : string =
+  let nt = List.length (cue_tracks c) + 1 in
+  let r = ranges_s (track_sample_ranges c) in
+  let b = match track_byte_ranges c ch bps with Ok l -> ranges_s l | _ -> raise Acc_panic in
+  let d = hx (display c (List.map n_of_int [ 102; 46; 102; 108; 97; 99 ])) in
+  Printf.sprintf "n:%x,t:%x,r:%s,b:%s,d:%s,k:%s" nt nt r b d (hx (catalog_text c))
+
+let list_acc (p : profile) (l : block list) : string =
+  try
+    match l with
+    | BStreaminfo si :: rest ->
+      let d =
+        match duration p si with
+        | Ok (Some (s, ns)) -> hex_of_n s ^ "." ^ hex_of_n ns
+        | Ok None -> "-"
+        | _ -> raise Acc_panic
+      in
+      let dl = match decoded_len p si with Ok (Some x) -> hex_of_n x | Ok None -> "-" | _ -> raise Acc_panic in
+      let m = match channel_mask si rest with Ok x -> hex_of_n x | _ -> raise Acc_panic in
+      let cues =
+        List.filter_map (function BCuesheet c -> Some (cue_acc c si.si_ch si.si_bps) | _ -> None) l
+      in
+      String.concat ";" (Printf.sprintf "d:%s,l:%s,m:%s" d dl m :: cues)
+    | _ -> "no-streaminfo"
+  with Acc_panic -> "panic"
+
+(* UTF-8 bytes (valid, produced by Rust) -> code points *)
+let decode_utf8 (s : string) : n list =
+  let b = Bytes.of_string s in
+  let len = Bytes.length b in
+  let rec go i acc =
+    if i >= len then List.rev acc
+    else
+      let c = Char.code (Bytes.get b i) in
+      let g k = Char.code (Bytes.get b (i + k)) land 0x3f in
+      if c < 0x80 then go (i + 1) (n_of_int c :: acc)
+      else if c < 0xe0 then go (i + 2) (n_of_int (((c land 0x1f) lsl 6) lor g 1) :: acc)
+      else if c < 0xf0 then go (i + 3) (n_of_int (((c land 0x0f) lsl 12) lor (g 1 lsl 6) lor g 2) :: acc)
+      else go (i + 4) (n_of_int (((c land 0x07) lsl 18) lor (g 1 lsl 12) lor (g 2 lsl 6) lor g 3) :: acc)
+  in
+  go 0 []
+
+let string_of_hex (h : string) : string =
+  if h = "." then ""
+  else String.init (String.length h / 2) (fun i -> Char.chr (int_of_string ("0x" ^ String.sub h (2 * i) 2)))
+
+let mime_of = function
+  | 0 -> "image/png" | 1 -> "image/jpeg" | _ -> "image/gif"
+let hex_of_string (s : string) : string =
+  if s = "" then "." else String.concat "" (List.init (String.length s) (fun i -> Printf.sprintf "%02x" (Char.code s.[i])))
+
 let handle (line : string) : string =
   match split ' ' line with
   | [ "rd"; p; h ] -> (
     match read_metadata utf8_valid_std (profile_of p) (bytes_of_hex h) with
     | Ok l -> Printf.sprintf "ok %s w=%s sz=%s" (dump_blocks l) (write_obs l) (sizes l)
+    | Err e -> "err:" ^ err_name e
+    | Panic k -> "panic:" ^ panic_name k)
+  | [ "rda"; p; h ] -> (
+    match read_metadata utf8_valid_std (profile_of p) (unhx h) with
+    | Ok l -> Printf.sprintf "ok %s acc=%s" (dump_blocks l) (list_acc (profile_of p) l)
+    | Err e -> "err:" ^ err_name e
+    | Panic k -> "panic:" ^ panic_name k)
+  | [ "rda"; p ] -> (
+    match read_metadata utf8_valid_std (profile_of p) [] with
+    | Ok l -> Printf.sprintf "ok %s acc=%s" (dump_blocks l) (list_acc (profile_of p) l)
+    | Err e -> "err:" ^ err_name e
+    | Panic k -> "panic:" ^ panic_name k)
+  | [ "cue"; p; total; text ] -> (
+    match cue_parse (profile_of p) (n_of_hex total) (decode_utf8 (string_of_hex text)) with
+    | Ok c ->
+      let acc = try cue_acc c (n_of_int 2) (n_of_int 16) with Acc_panic -> "panic" in
+      Printf.sprintf "ok %s acc=%s" (dump_block (BCuesheet c)) acc
+    | Err e -> "err:" ^ err_name e
+    | Panic k -> "panic:" ^ panic_name k)
+  | [ "img"; p; h ] -> (
+    match sniff (profile_of p) (unhx h) with
+    | Ok m ->
+      Printf.sprintf "ok %s,%s,%s,%s,%s" (hex_of_string (mime_of (int_of_n m.m_kind))) (hex_of_n m.m_width) (hex_of_n m.m_height)
+        (hex_of_n m.m_depth) (hex_of_n m.m_colors)
     | Err e -> "err:" ^ err_name e
     | Panic k -> "panic:" ^ panic_name k)
   | [ "wl"; _p; d ] ->
